@@ -1,6 +1,7 @@
 //! Pool of worker subprocesses with a per-job wall deadline. A job that exceeds the deadline has
 //! its worker's whole process group killed, is retried once on a fresh worker, and is reported as
-//! `{"verdict":"timeout"}` only if it times out twice.
+//! `{"verdict":"timeout"}` only if it times out twice and a third time when run alone with five times
+//! the deadline.
 
 use serde_json::{Value, json};
 use std::io::{BufRead, BufReader, Write};
@@ -121,6 +122,28 @@ pub fn run_jobs(jobs: &[Value], threads: usize, deadline: Duration) -> Vec<Value
             });
         }
     });
-    let r = results.lock().unwrap();
+    // a job that timed out twice while the machine was busy with the other jobs gets a last attempt alone,
+    // with five times the deadline: only a job that does not answer then either is reported as a timeout
+    // (a genuine hang fails all three attempts; a slow machine does not raise an alarm)
+    let mut r = results.lock().unwrap();
+    let mut confirmed_hangs = 0;
+    for (i, x) in r.iter_mut().enumerate() {
+        // once two hangs are confirmed the machine is not the explanation: the rest keep their verdict
+        if confirmed_hangs < 2 && x.as_ref().map(|v| v["verdict"] == "timeout").unwrap_or(false) {
+            let mut w: Option<Worker> = None;
+            if let Some(mut again) = run_one(&mut w, &jobs[i], deadline * 5) {
+                again["first_attempt_timed_out"] = json!(true);
+                again["answered_only_when_run_alone"] = json!(true);
+                *x = Some(again);
+            } else if let Some(v) = x.as_mut() {
+                confirmed_hangs += 1;
+                v["msg"] = json!(format!("no answer within {:?} (twice) nor within {:?} when run alone", deadline, deadline * 5));
+            }
+            if let Some(mut wk) = w {
+                drop(wk.stdin);
+                let _ = wk.child.wait();
+            }
+        }
+    }
     r.iter().map(|x| x.clone().unwrap_or_else(|| json!({"verdict": "machinery", "msg": "job not run"}))).collect()
 }
